@@ -28,6 +28,13 @@ import (
 
 func DecodeURL(logger s3log.AuditLogger, mm *metrics.Manager) fiber.Handler {
 	return func(ctx *fiber.Ctx) error {
+		if !strings.HasPrefix(string(ctx.Request().URI().PathOriginal()), "/") {
+			// "GET foo", "OPTIONS *": everything downstream (router, ACL
+			// parser, audit loggers) splits the path at "/" and expects a
+			// bucket element
+			ctx.Path("/")
+			return controllers.SendResponse(ctx, s3err.GetAPIError(s3err.ErrInvalidURI), &controllers.MetaOpts{Logger: logger, MetricsMng: mm})
+		}
 		unescp, err := url.QueryUnescape(string(ctx.Request().URI().PathOriginal()))
 		if err != nil {
 			return controllers.SendResponse(ctx, s3err.GetAPIError(s3err.ErrInvalidURI), &controllers.MetaOpts{Logger: logger, MetricsMng: mm})
